@@ -231,6 +231,17 @@ C10_TreesWellFormed(cmd, t, r) ==
 
 C10_ParentsExist(cmd, t) == ParentDirs(cmd) \subseteq DirLocs(t)
 
+\* Before the command runs the worker has put nothing at or below a
+\* declared output location, except parent directories of further outputs:
+\* whatever is reported there later was produced by the action.  (p0: the
+\* input root as given, t: the tree when the command starts.)
+CreatedByWorker(cmd, p0, t) ==
+  {e \in t \ p0 : e.kind # "dir" \/ e.path \notin ParentDirs(cmd)}
+
+C10_OutputsNotPrecreated(cmd, p0, t) ==
+  \A e \in CreatedByWorker(cmd, p0, t) :
+    \A i \in DOMAIN cmd.paths : ~IsPrefix(Loc(cmd, cmd.paths[i]), e.path)
+
 -----------------------------------------------------------------------------
 (* The reference implementation of the result (used for model checking     *)
 (* the operators above against each other).                                *)
@@ -276,7 +287,8 @@ CONSTANTS Names,      \* names that may appear in paths and trees
           MaxLen,     \* components per output path
           K1Kinds,    \* what may be produced at depth 1 / depth 2:
           K2Kinds,    \* "none","fx","f-","l","s","d" (d: directory)
-          PickedOnly  \* TRUE: only the hand-picked trees below
+          PickedOnly, \* TRUE: only the hand-picked trees below
+          PreAll      \* TRUE: several input roots, FALSE: only the empty one
 
 VARIABLES phase,   \* "declared" | "rejected" | "accepted" | "prepared" | "failed" | "ran" | "done"
           cmd,     \* the command
@@ -322,7 +334,10 @@ PickedTrees ==
 
 Trees == IF PickedOnly THEN PickedTrees ELSE AllTrees
 
-PreTrees == {{}, {DirEntry(<<"a">>)}, {EntryOf(<<"a">>, "f-")}}
+\* Input roots: empty; a directory where a parent directory will be needed;
+\* a file in the way of one.
+PreTrees ==
+  IF PreAll THEN {{}, {DirEntry(<<"a">>)}, {EntryOf(<<"a">>, "f-")}} ELSE {{}}
 
 NoResult == [err |-> FALSE]
 
@@ -377,7 +392,8 @@ C10_EscapesRejected ==
   /\ phase \in {"accepted", "prepared", "failed", "ran", "done"} => Valid(cmd)
   /\ phase = "rejected" => ~Valid(cmd) /\ fs = pre
 
-C10_ParentsExistBeforeRun == phase = "prepared" => C10_ParentsExist(cmd, fs)
+C10_ParentsExistBeforeRun ==
+  phase = "prepared" => C10_ParentsExist(cmd, fs) /\ C10_OutputsNotPrecreated(cmd, pre, fs)
 
 C10_Reported == phase = "done" => C10_ReportedExactly(cmd, fs, result)
 
